@@ -17,6 +17,7 @@ func c09define(mode, um int, ro bool) (*GetOpt, *bool, *string, *string, *[]stri
 		opt.SetRequireOrder()
 	}
 	flag := opt.Bool("flag", false)
+	opt.Bool("v", false)
 	str := opt.String("str", "d")
 	sopt := opt.StringOptional("sopt", "dd")
 	list := opt.StringSlice("list", 1, 2)
@@ -32,7 +33,7 @@ func VerifC09_Stop() {
 	mode := vInt("mode", 0, 2)
 	um := vInt("um", 0, 2)
 	pre := vInt("pre", 0, 5)
-	stopKind := vInt("stop", 0, 2)
+	stopKind := vInt("stop", 0, 3)
 	t1, t2 := vString("t1"), vString("t2")
 	x := positional("x")
 	y := positional("y")
@@ -62,12 +63,17 @@ func VerifC09_Stop() {
 		vAssume(u != "")
 		vAssume(!strings.Contains(u, "="))
 		vAssume(!strings.HasPrefix("flag", u))
+		vAssume(!strings.HasPrefix("v", u))
 		vAssume(!strings.HasPrefix("str", u))
 		vAssume(!strings.HasPrefix("sopt", u))
 		vAssume(!strings.HasPrefix("list", u))
 		stop = "--" + u
 	case 2:
 		stop = "-"
+	case 3:
+		// Bundling: a bundle whose first letter is known and whose second is not
+		vAssume(mode == 1)
+		stop = "-vy"
 	}
 
 	// run A: require-order, full command line
@@ -83,6 +89,7 @@ func VerifC09_Stop() {
 	vAssert("reference-no-error", errB == nil)
 	vAssert("reference-remaining-empty", len(remB) == 0)
 	vAssert("rest-verbatim", eqStrs(remA, []string{stop, t1, t2}))
+	vAssert("tail-not-interpreted/v", stopKind == 3 || !optA.Called("v"))
 	// everything before the stop point is parsed exactly as without require-order
 	vAssert("same/flag", *flagA == *flagB)
 	vAssert("same/str", *strA == *strB)
